@@ -292,7 +292,7 @@ class Check:
         return r
 
     # ---------- replay through the real code ----------
-    def replay(self, driver, cases, name, workers=None, timeout="10s", race=False):
+    def replay(self, driver, cases, name, workers=None, timeout="10s", race=False, env=None):
         """Run cases (list of dicts) through `vh run driver`; returns list of result envelopes."""
         exe = self.vh(race=race)
         inf = os.path.join(self.dir, name + ".cases.ndjson")
@@ -302,8 +302,11 @@ class Check:
                 f.write(json.dumps(c, separators=(",", ":")) + "\n")
         if workers is None:
             workers = NCPU
+        e = go_env()
+        if env:
+            e.update(env)
         p = subprocess.run([exe, "run", driver, "-in", inf, "-out", outf, "-workers", str(workers), "-timeout", timeout],
-                           capture_output=True, text=True, env=go_env())
+                           capture_output=True, text=True, env=e)
         if p.returncode != 0:
             raise MachineryError("vh run %s failed: %s" % (driver, p.stderr[-2000:]))
         res = [json.loads(l) for l in open(outf)]
